@@ -1,112 +1,241 @@
 """C13 -- all call paths to a C function agree.
 
-Per generated module: ~40 C functions over the supported argument/return
-types; each folds its arguments into the return value, writes through pointer
-arguments and sets errno from the arguments.  The same source is built as an
-API-mode module and the shared object is also dlopen()ed in-line and through
-an out-of-line ABI module.  For each argument tuple the four calls
+Per generated module: 32 random C functions over the supported argument/return
+types (0..10 parameters), a family of array-walking functions f(T *p, long n)
+and two variadic functions.  Each function folds errno-at-entry and its
+arguments into the return value, writes through pointer arguments and sets
+errno from the arguments.  The same source is built as an API-mode module and
+the shared object is also dlopen()ed in-line and through an out-of-line ABI
+module.  For each argument tuple the four calls
   lib.f(...)  /  ffi.addressof(lib,'f')(...)  /  in-line dlopen  /  out-of-line ABI dlopen
-run on fresh copies of the pointed-to buffers; compared: return value (bit
-pattern for floats) or exception class, buffers afterwards, ffi.errno.
+run on fresh copies of the pointed-to buffers with the same preset ffi.errno;
+compared: return value (bit pattern for floats, field-wise for structs) or
+exception class, buffers afterwards, ffi.errno afterwards (also after an
+exception).  Variadic calls and array-walking calls (whose four paths share
+most of cdata_call) are in addition compared with a Python model of the C
+function body.
+
+Known finding kept under its own classifier key
+'partial-struct-arg:indeterminate-fields': a by-value struct parameter given a
+list initializer that names fewer fields than the struct has is converted into
+an uninitialised local (generated _cffi_f_ wrapper) / uninitialised exchange
+buffer (cdata_call); convert_struct_from_object() writes the named fields only,
+so the callee sees indeterminate bytes in the others and the paths disagree.
 """
 import os, sys, random, struct
 from vlib import core, modbuild, gen
 
-RULE = ("case = (function signature, argument tuple); signatures over all integer sizes/signs, "
-        "_Bool, char, float, double, pointers to int/char/struct, structs by value and return, "
-        "variadic long long; tuples mix in-range, boundary and out-of-range ints, wrong Python "
-        "types, lists/bytes/NULL/wrongly typed cdata for pointer parameters; distinct = "
-        "(signature, tuple); non-trivial = at least one argument")
-ASSUMPTIONS = ["signatures that hit a defect of the system libffi 3.4.4 (second by-value INTEGER+SSE struct taking the last general register; reproduced through ctypes) are not generated",
+RULE = ("case = (function signature, argument tuple, errno preset, call form); signatures of 0..10 "
+        "parameters over all integer sizes/signs, _Bool, char, wchar_t/char16_t/char32_t, float, double, "
+        "pointers to int/long/double/char/unsigned char/void/struct, array-typed and function-pointer "
+        "parameters, structs by value (register classes INTEGER, SSE, mixed, MEMORY, nested) and every one "
+        "of them as return type; array walkers f(T*, n) with list/tuple/bytes/cdata arguments of 0..5000 "
+        "bytes around the 512/640-byte temporary-storage thresholds; variadic calls with promoted cdata "
+        "of every class; tuples are all-valid (60%), one hostile argument (25%) or free mix, where hostile "
+        "= boundary/out-of-range ints, wrong Python types, cdata of another type, int-like/float-like "
+        "objects, lists/bytes/NULL/wrongly typed cdata for pointers; call forms: exact arity, one "
+        "argument missing, one extra, keyword argument; distinct = (signature, tuple); non-trivial = "
+        "at least one argument")
+ASSUMPTIONS = ["signatures that hit a defect of the system libffi 3.4.4 (a by-value INTEGER+SSE struct whose first eightbyte takes the last general register overwrites the value already assigned to xmm0; reproduced through ctypes) are not generated; by-value structs only appear in signatures of at most 7 parameters",
                "exception *classes* are compared, not messages",
-               "pointer results are compared as 'which argument buffer they point into'"]
+               "pointer results are compared as 'which argument buffer they point into'",
+               "struct results are compared field by field (padding bytes are not part of the outcome)",
+               "<cdata 'float'> is not passed in the variadic part: cffi hands it to libffi unpromoted and the callee's va_arg(double) reads indeterminate bits (same on all paths; outside 'same outcome')",
+               "the Python model of the variadic / array-walking C bodies states only what the C source in this file computes from the C-level argument values"]
 
 INTS = [('signed char', 1, True), ('unsigned char', 1, False), ('short', 2, True),
         ('unsigned short', 2, False), ('int', 4, True), ('unsigned int', 4, False),
         ('long', 8, True), ('unsigned long', 8, False), ('long long', 8, True),
         ('unsigned long long', 8, False), ('int8_t', 1, True), ('uint16_t', 2, False),
         ('int32_t', 4, True), ('uint64_t', 8, False), ('size_t', 8, False), ('ssize_t', 8, True)]
-ARGT = [t[0] for t in INTS] + ['_Bool', 'char', 'float', 'double', 'int *', 'char *',
-                               'struct pt *', 'struct pt', 'long *', 'struct pa', 'struct pd',
-                               'struct pb']
-RETT = [t[0] for t in INTS] + ['_Bool', 'char', 'float', 'double', 'void', 'int *', 'struct pt']
+INTD = dict((t[0], t) for t in INTS)
+WCH = {'wchar_t': 0x10FFFF, 'char16_t': 0xFFFF, 'char32_t': 0x10FFFF}
+FNPTR = 'int (*)(int)'
+PTRITEM = {'int *': 'int', 'long *': 'long', 'double *': 'double', 'int[3]': 'int'}
+STRUCTS = ['struct pt', 'struct pa', 'struct pd', 'struct pb', 'struct big', 'struct nest']
+SCALARS = [t[0] for t in INTS] + ['_Bool', 'char', 'float', 'double', 'wchar_t', 'char16_t', 'char32_t']
+POINTERS = ['int *', 'char *', 'struct pt *', 'long *', 'double *', 'unsigned char *', 'void *',
+            'int[3]', FNPTR]
+ARGT = SCALARS + POINTERS + ['struct pt', 'struct pt'] + STRUCTS
+RETT = SCALARS + ['void', 'int *', 'char *', 'void *', 'struct pt *'] + ['struct pt'] + STRUCTS
 STRUCT = ('struct pt { int a; short b; double c; }; struct pa { float a[2][2]; }; '
-          'struct pd { int a[2][2]; }; struct pb { char c[3]; short s; };')
+          'struct pd { int a[2][2]; }; struct pb { char c[3]; short s; }; '
+          'struct big { long a; double b; signed char c[5]; long long d; }; '
+          'struct in { short x; signed char y; }; struct nest { struct in p; int q; };')
 SMALL = {'struct pa': '(long long)(%s.a[0][0] + 2 * %s.a[0][1] + 3 * %s.a[1][0] + 4 * %s.a[1][1])',
          'struct pd': '(long long)(%s.a[0][0] + 2LL * %s.a[0][1] + 3LL * %s.a[1][0] + 4LL * %s.a[1][1])',
-         'struct pb': '(long long)(%s.c[0] + 2 * %s.c[1] + 3 * %s.c[2] + 4 * %s.s)'}
+         'struct pb': '(long long)(%s.c[0] + 2 * %s.c[1] + 3 * %s.c[2] + 4 * %s.s)',
+         'struct big': '(long long)(%s.a + (long long)(%s.b * 2.0) + %s.c[0] + 2 * %s.c[4] + %s.d)',
+         'struct nest': '(long long)(%s.p.x + 2 * %s.p.y + 3LL * %s.q)'}
+# array walkers: tag -> (item type, item size, writes back)
+ARR = {'int': ('int', 4, True), 'long': ('long', 8, True), 'short': ('short', 2, True),
+       'double': ('double', 8, True), 'char': ('char', 1, False),
+       'uchar': ('unsigned char', 1, False), 'pt': ('struct pt', 16, True),
+       'pb': ('struct pb', 6, False)}
+NFIELDS = {'struct pt': 3, 'struct pa': 1, 'struct pd': 1, 'struct pb': 2, 'struct big': 4, 'struct nest': 2}
+M64 = (1 << 64) - 1
+
+
+def s64(v):
+    v &= M64
+    return v - (1 << 64) if v >> 63 else v
 
 
 def gen_module(seed, nfun):
     rnd = random.Random(seed)
     funcs = []
     for i in range(nfun):
-        na = rnd.choice([0, 1, 1, 2, 2, 3, 4, 6])
-        args = [rnd.choice(ARGT) for _ in range(na)]
+        na = rnd.choice([0, 1, 1, 2, 2, 3, 4, 6, 8, 10])
+        pool = ARGT if na <= 6 else SCALARS + POINTERS
+        args = [rnd.choice(pool) for _ in range(na)]
         ret = rnd.choice(RETT)
-        if ret == 'int *' and 'int *' not in args:
-            args.append('int *')
+        if ret in ('int *', 'char *', 'void *', 'struct pt *') and ret not in args:
+            args.append(ret)
         while platform_libffi_bug(args):
             args.remove('struct pt')
         funcs.append({'name': 'f%d' % i, 'args': args, 'ret': ret})
-    funcs.append({'name': 'vsum', 'args': ['int'], 'ret': 'long long', 'variadic': True})
+    for tag in sorted(ARR):
+        funcs.append({'name': 'arr_' + tag, 'args': [ARR[tag][0] + ' *', 'long'], 'ret': 'long long',
+                      'arr': tag})
+    funcs.append({'name': 'arr2', 'args': ['int *', 'long', 'long *', 'long'], 'ret': 'long long',
+                  'arr': '2'})
+    funcs.append({'name': 'vsum', 'args': ['int'], 'ret': 'long long', 'variadic': 'sum'})
+    funcs.append({'name': 'vmix', 'args': ['const char *'], 'ret': 'long long', 'variadic': 'mix'})
     return funcs
 
 
 def platform_libffi_bug(args):
-    """The system libffi (3.4.4, also through ctypes) passes a wrong SSE half when
-    a second mixed INTEGER+SSE struct argument takes the 6th (last) general
-    register: double k(long,long,long,long, struct pt a, struct pt b) receives
-    a.c == b.c.  Not cffi code: such signatures are not generated."""
-    gpr, structs = 0, 0
+    """The system libffi (3.4.4, also through ctypes) copies the whole 16 bytes of a
+    mixed INTEGER+SSE struct to the slot of its first eightbyte; when that slot is
+    the 6th (last) general register the copy runs over into the slot of xmm0, so
+    an SSE value assigned earlier is replaced by the struct's double:
+    double k(long,long,long,long, struct pt a, struct pt b) receives a.c == b.c and
+    f(void*, long, struct pd, double x, int, struct pt p) receives x == p.c.
+    Not cffi code: such signatures are not generated."""
+    gpr, sse = 0, 0
     for a in args:
         if a in ('float', 'double'):
+            sse += 1 if sse < 8 else 0
             continue
         if a in ('struct pd',):
             gpr += 2 if gpr + 2 <= 6 else 0
             continue
-        if a == 'struct pb':
+        if a in ('struct pb', 'struct nest'):
             gpr += 1 if gpr < 6 else 0
             continue
-        if a == 'struct pa':
+        if a == 'struct pa':                      # two SSE eightbytes
+            sse += 2 if sse + 2 <= 8 else 0
+            continue
+        if a == 'struct big':                     # MEMORY class
             continue
         if a == 'struct pt':
-            if gpr + 1 <= 6:
-                gpr += 1
-                structs += 1
-                if gpr == 6 and structs >= 2:
+            if gpr + 1 <= 6 and sse + 1 <= 8:
+                if gpr == 5 and sse > 0:
                     return True
+                gpr += 1
+                sse += 1
             continue
         if gpr < 6:
             gpr += 1
     return False
 
 
+VSUM_C = ('long long vsum(int n, ...) { va_list ap; unsigned long long s = 0; int i; va_start(ap, n); '
+          'for (i = 0; i < n; i++) s = s * 3 + (unsigned long long)va_arg(ap, long long); va_end(ap); '
+          'errno = (int)(s & 0x7fff) + 1; return (long long)s; }')
+VMIX_C = r'''long long vmix(const char *fmt, ...) {
+  va_list ap; unsigned long long s = 5; const char *f; va_start(ap, fmt);
+  for (f = fmt; *f; f++) { switch (*f) {
+    case 'i': s = s * 3 + (unsigned long long)(long long)va_arg(ap, int); break;
+    case 'u': s = s * 3 + (unsigned long long)va_arg(ap, unsigned int); break;
+    case 'l': s = s * 3 + (unsigned long long)va_arg(ap, long long); break;
+    case 'd': s = s * 3 + (unsigned long long)(long long)(va_arg(ap, double) * 4.0); break;
+    case 'p': { int *p = va_arg(ap, int *);
+                if (p) { s = s * 3 + (unsigned long long)(long long)p[0]; p[0] += 1; } else s = s * 3 + 1;
+                break; }
+    case 's': { char *p = va_arg(ap, char *); s = s * 3 + (p ? (unsigned long long)(unsigned char)p[0] : 2); break; }
+    case 't': { struct pt t = va_arg(ap, struct pt);
+                s = s * 3 + (unsigned long long)((long long)t.a + t.b + (long long)t.c); break; }
+  } }
+  va_end(ap); errno = (int)(s & 0x7fff) + 1; return (long long)s; }'''
+
+
+def arr_body(f):
+    tag = f['arr']
+    if tag == '2':
+        return ('long long arr2(int *p, long n, long *q, long m) { unsigned long long s = 11 + (errno & 0xff); '
+                'long i; for (i = 0; i < n; i++) s = s * 131 + (unsigned long long)(long long)p[i]; '
+                'for (i = 0; i < m; i++) { s = s * 131 + (unsigned long long)q[i]; q[i] += i + 1; } '
+                'errno = (int)(s & 0x7fff) + 1; return (long long)s; }')
+    T, size, wr = ARR[tag]
+    if tag == 'pt':
+        item = '(unsigned long long)((long long)p[i].a + 5LL * p[i].b + (long long)(p[i].c * 4.0))'
+        write = 'p[i].a += (int)i + 1;'
+    elif tag == 'pb':
+        item = '(unsigned long long)(long long)(p[i].c[0] + 2 * p[i].c[1] + 3 * p[i].c[2] + 4 * p[i].s)'
+        write = ''
+    elif tag == 'double':
+        item = '(unsigned long long)(long long)(p[i] * 4.0)'
+        write = 'p[i] = p[i] + 1.0;'
+    elif tag == 'uchar':
+        item = '(unsigned long long)p[i]'
+        write = ''
+    else:
+        item = '(unsigned long long)(long long)p[i]'
+        write = 'p[i] = (%s)(p[i] + i + 1);' % T if wr else ''
+    return ('long long %s(%s *p, long n) { unsigned long long s = 11 + (errno & 0xff); long i; '
+            'for (i = 0; i < n; i++) { s = s * 131 + %s; %s } '
+            'errno = (int)(s & 0x7fff) + 1; return (long long)s; }' % (f['name'], T, item, write))
+
+
+def c_param(a, n):
+    if a == FNPTR:
+        return 'int (*%s)(int)' % n
+    if a == 'int[3]':
+        return 'int %s[3]' % n
+    if a.endswith('*'):
+        return a + n
+    return '%s %s' % (a, n)
+
+
 def c_body(f):
-    if f.get('variadic'):
-        return ('long long vsum(int n, ...) { va_list ap; long long s = 0; int i; va_start(ap, n); '
-                'for (i = 0; i < n; i++) s = s * 3 + va_arg(ap, long long); va_end(ap); '
-                'errno = (int)(s & 0x7fff) + 1; return s; }')
-    params, st = [], ['long long acc = 7;']
+    if f.get('variadic') == 'sum':
+        return VSUM_C
+    if f.get('variadic') == 'mix':
+        return VMIX_C
+    if f.get('arr'):
+        return arr_body(f)
+    # the value of errno at entry is part of the result: every path has to
+    # restore the saved errno before the call
+    params, st = [], ['long long acc = 7 + (errno & 0xff);']
     for i, a in enumerate(f['args']):
         n = 'a%d' % i
-        params.append('%s %s' % (a, n) if not a.endswith('*') else '%s%s' % (a, n))
+        params.append(c_param(a, n))
         if a in ('float', 'double'):
             st.append('acc = acc * 31 + (long long)(%s * 4.0);' % n)
-        elif a == 'int *':
+        elif a in ('int *', 'int[3]'):
             st.append('if (%s) { acc = acc * 31 + %s[0]; %s[0] = (int)(acc & 0xffff); '
                       '%s[1] ^= 0x55; }' % (n, n, n, n))
         elif a == 'long *':
             st.append('if (%s) { acc = acc * 31 + %s[0]; %s[0] = acc; }' % (n, n, n))
+        elif a == 'double *':
+            st.append('if (%s) { acc = acc * 31 + (long long)(%s[0] * 4.0); %s[0] = %s[0] * 0.5 + 1.0; '
+                      '%s[1] = -%s[1]; }' % (n, n, n, n, n, n))
         elif a == 'char *':
             st.append('if (%s) { acc = acc * 31 + (unsigned char)%s[0]; }' % (n, n))
+        elif a == 'unsigned char *':
+            st.append('if (%s) { acc = acc * 31 + %s[0]; }' % (n, n))
+        elif a == 'void *':
+            st.append('acc = acc * 31 + (%s != 0);' % n)
+        elif a == FNPTR:
+            st.append('acc = acc * 31 + (%s ? %s(3) : -5);' % (n, n))
         elif a == 'struct pt *':
             st.append('if (%s) { acc = acc * 31 + %s->a + %s->b + (long long)%s->c; %s->a += 1; '
                       '%s->c = %s->c * 2; }' % (n, n, n, n, n, n, n))
         elif a == 'struct pt':
             st.append('acc = acc * 31 + %s.a + %s.b + (long long)%s.c;' % (n, n, n))
         elif a in SMALL:
-            st.append('acc = acc * 31 + %s;' % (SMALL[a] % (n, n, n, n)))
+            st.append('acc = acc * 31 + %s;' % (SMALL[a] % ((n,) * SMALL[a].count('%s'))))
         else:
             st.append('acc = acc * 31 + (long long)%s;' % n)
     st.append('errno = (int)(acc & 0x7fff) + 1;')
@@ -117,98 +246,422 @@ def c_body(f):
         st.append('return (acc & 1) != 0;')
     elif r in ('float', 'double'):
         st.append('return (%s)((double)(acc %% 4096) * 0.5);' % r)
-    elif r == 'int *':
-        k = [i for i, a in enumerate(f['args']) if a == 'int *'][0]
+    elif r in ('wchar_t', 'char32_t'):
+        st.append('return (%s)(acc & 0x1fffff);' % r)      # sometimes > 0x10FFFF
+    elif r in ('int *', 'char *', 'void *', 'struct pt *'):
+        k = [i for i, a in enumerate(f['args']) if a == r][0]
         st.append('return a%d;' % k)
     elif r == 'struct pt':
         st.append('{ struct pt r; r.a = (int)acc; r.b = (short)(acc >> 3); r.c = (double)(acc % '
                   '1000); return r; }')
+    elif r == 'struct pa':
+        st.append('{ struct pa r; r.a[0][0] = (float)(acc % 100) * 0.5f; r.a[0][1] = (float)(acc % 7); '
+                  'r.a[1][0] = -1.5f; r.a[1][1] = (float)(acc % 1000); return r; }')
+    elif r == 'struct pd':
+        st.append('{ struct pd r; r.a[0][0] = (int)acc; r.a[0][1] = (int)(acc >> 7); '
+                  'r.a[1][0] = (int)(acc >> 13); r.a[1][1] = 42; return r; }')
+    elif r == 'struct pb':
+        st.append('{ struct pb r; r.c[0] = (char)acc; r.c[1] = (char)(acc >> 8); r.c[2] = (char)(acc >> 16); '
+                  'r.s = (short)(acc >> 5); return r; }')
+    elif r == 'struct big':
+        st.append('{ struct big r; memset(&r, 0, sizeof(r)); r.a = (long)acc; r.b = (double)(acc % 512) * 0.25; '
+                  'r.c[0] = (signed char)acc; r.c[4] = (signed char)(acc >> 9); r.d = acc ^ 0x5555; return r; }')
+    elif r == 'struct nest':
+        st.append('{ struct nest r; r.p.x = (short)acc; r.p.y = (signed char)(acc >> 4); r.q = (int)(acc >> 2); '
+                  'return r; }')
     else:
         st.append('return (%s)acc;' % r)
-    return '%s %s(%s) { %s }' % (r if not r.endswith('*') else r, f['name'],
-                                 ', '.join(params) or 'void', ' '.join(st))
+    return '%s %s(%s) { %s }' % (r, f['name'], ', '.join(params) or 'void', ' '.join(st))
 
 
 def c_decl(f):
-    if f.get('variadic'):
+    if f.get('variadic') == 'sum':
         return 'long long vsum(int n, ...);'
+    if f.get('variadic') == 'mix':
+        return 'long long vmix(const char *fmt, ...);'
     return '%s %s(%s);' % (f['ret'], f['name'], ', '.join(f['args']) or 'void')
 
 
 def module_spec(d, seed, nfun, name):
     funcs = gen_module(seed, nfun)
-    cdef = STRUCT + '\n' + '\n'.join(c_decl(f) for f in funcs)
-    src = ('#include <errno.h>\n#include <stdarg.h>\n#include <stdint.h>\n#include <sys/types.h>\n'
-           + STRUCT + '\n' + '\n'.join(c_body(f) for f in funcs))
+    cdef = STRUCT + '\nint cbfn(int);\n' + '\n'.join(c_decl(f) for f in funcs)
+    src = ('#include <errno.h>\n#include <stdarg.h>\n#include <stdint.h>\n#include <string.h>\n'
+           '#include <sys/types.h>\n#include <wchar.h>\n#include <uchar.h>\n'
+           + STRUCT + '\nint cbfn(int x) { return x * 7 + 1; }\n' + '\n'.join(c_body(f) for f in funcs))
     return {'name': name, 'kind': 'api', 'cdef': cdef, 'source': src, 'dir': d}, funcs, cdef
 
 
-def gen_arg(rnd, a):
-    """JSON-able descriptor of one argument"""
-    r = rnd.random()
-    for (T, size, signed) in INTS:
-        if a == T:
-            lo, hi = gen.int_range(size, signed)
-            if r < 0.65:
-                return {'k': 'int', 'v': rnd.choice([lo, hi, 0, 1, -1 if signed else 2,
-                                                     rnd.randint(lo, hi)])}
-            if r < 0.85:
-                return {'k': 'int', 'v': rnd.choice([lo - 1, hi + 1, 2 ** 64, -2 ** 63 - 1,
-                                                     2 ** 100])}
-            return rnd.choice([{'k': 'str'}, {'k': 'none'}, {'k': 'float', 'v': (1.5).hex()},
-                               {'k': 'bool', 'v': True}])
-    if a == '_Bool':
-        return rnd.choice([{'k': 'int', 'v': 0}, {'k': 'int', 'v': 1}, {'k': 'bool', 'v': True},
-                           {'k': 'int', 'v': 2}, {'k': 'int', 'v': -1}, {'k': 'str'}])
-    if a == 'char':
-        return rnd.choice([{'k': 'bytes', 'v': bytes([rnd.randrange(256)]).hex()},
-                           {'k': 'bytes', 'v': b'ab'.hex()}, {'k': 'int', 'v': 65}, {'k': 'str'}])
-    if a in ('float', 'double'):
-        if r < 0.8:
-            return {'k': 'float', 'v': rnd.choice([0.0, 1.5, -2.25, 1e10, 3.0e38, 1e300,
-                                                   rnd.uniform(-1e6, 1e6)]).hex()}
-        return rnd.choice([{'k': 'int', 'v': 3}, {'k': 'str'}, {'k': 'none'}])
-    if a in ('int *', 'long *'):
-        vals = [rnd.randint(-1000, 1000) for _ in range(rnd.choice([2, 3]))]
-        return rnd.choice([{'k': 'buf', 't': a[:-2], 'vals': vals}, {'k': 'buf', 't': a[:-2], 'vals': vals},
-                           {'k': 'list', 'vals': vals}, {'k': 'null'}, {'k': 'wrongptr'},
-                           {'k': 'int', 'v': 5}, {'k': 'none'}])
-    if a == 'char *':
-        s = bytes(rnd.randrange(1, 256) for _ in range(rnd.choice([1, 3, 8])))
-        return rnd.choice([{'k': 'bytes', 'v': s.hex()}, {'k': 'cbuf', 'v': s.hex()},
-                           {'k': 'null'}, {'k': 'wrongptr'}, {'k': 'str'}, {'k': 'list', 'vals': list(s)}])
-    if a == 'struct pt *':
-        sv = [rnd.randint(-100, 100), rnd.randint(-100, 100), rnd.choice([1.5, -3.0, 100.25])]
-        return rnd.choice([{'k': 'structptr', 'v': sv}, {'k': 'structptr', 'v': sv},
-                           {'k': 'null'}, {'k': 'wrongptr'}, {'k': 'structlist', 'v': sv},
-                           {'k': 'partial', 'v': [{'a': sv[0]}]},
-                           {'k': 'partial', 'v': [[sv[0]], {'b': sv[1]}]},
-                           {'k': 'partial', 'v': [{'b': sv[1]}] * 20}])
-    if a == 'struct pa':
-        v = [[[rnd.choice([1.5, -2.0, 100.25, 0.0]) for _ in range(2)] for _ in range(2)]]
-        return rnd.choice([{'k': 'sval', 't': a, 'v': v}, {'k': 'sval', 't': a, 'v': v},
-                           {'k': 'rawlist', 'v': v}, {'k': 'int', 'v': 1}])
-    if a == 'struct pd':
-        v = [[[rnd.randint(-1000, 1000) for _ in range(2)] for _ in range(2)]]
-        return rnd.choice([{'k': 'sval', 't': a, 'v': v}, {'k': 'sval', 't': a, 'v': v},
-                           {'k': 'rawlist', 'v': v}, {'k': 'none'}])
-    if a == 'struct pb':
-        v = [[rnd.randint(-100, 100) % 256 for _ in range(3)], rnd.randint(-30000, 30000)]
-        return rnd.choice([{'k': 'sval', 't': a, 'v': [bytes(v[0]).hex(), v[1]]},
-                           {'k': 'str'}])
+# ---------------------------------------------------------------------------
+# argument descriptors (JSON-able)
+
+CINT_T = ['long long', 'short', 'unsigned char', '_Bool', 'char', 'unsigned long long', 'int',
+          'signed char', 'uint16_t']
+
+
+def cint_desc(rnd, a):
+    t = rnd.choice([a, a, 'long long'] + CINT_T) if a in INTD else rnd.choice(CINT_T)
+    if t == '_Bool':
+        return {'k': 'cint', 't': t, 'v': rnd.choice([0, 1])}
+    if t == 'char':
+        return {'k': 'cint', 't': t, 'v': rnd.randrange(0, 128)}
+    if t in INTD:
+        lo, hi = gen.int_range(INTD[t][1], INTD[t][2])
+    else:
+        lo, hi = 0, 0xffff
+    return {'k': 'cint', 't': t, 'v': rnd.choice([lo, hi, 0, 1, rnd.randint(lo, hi)])}
+
+
+def struct_init(rnd, a):
     if a == 'struct pt':
-        sv = [rnd.randint(-100, 100), rnd.randint(-100, 100), rnd.choice([1.5, -3.0, 100.25])]
-        return rnd.choice([{'k': 'struct', 'v': sv}, {'k': 'struct', 'v': sv},
-                           {'k': 'structptr', 'v': sv}, {'k': 'int', 'v': 1},
-                           {'k': 'dict', 'v': sv}])
+        return [rnd.randint(-100, 100), rnd.randint(-100, 100), rnd.choice([1.5, -3.0, 100.25])]
+    if a == 'struct pa':
+        return [[[rnd.choice([1.5, -2.0, 100.25, 0.0]) for _ in range(2)] for _ in range(2)]]
+    if a == 'struct pd':
+        return [[[rnd.randint(-1000, 1000) for _ in range(2)] for _ in range(2)]]
+    if a == 'struct pb':
+        return [bytes(rnd.randrange(256) for _ in range(3)).hex(), rnd.randint(-30000, 30000)]
+    if a == 'struct big':
+        return [rnd.randint(-10 ** 6, 10 ** 6), rnd.choice([1.5, -2.25, 1000.5, 0.0]),
+                [rnd.randint(-128, 127) for _ in range(5)], rnd.randint(-10 ** 9, 10 ** 9)]
+    if a == 'struct nest':
+        return [[rnd.randint(-30000, 30000), rnd.randint(-128, 127)], rnd.randint(-10 ** 6, 10 ** 6)]
     raise ValueError(a)
+
+
+def gen_arg(rnd, a, good):
+    """JSON-able descriptor of one argument; good=True: an argument every path
+    is expected to accept, good=False: hostile (mostly refused)."""
+    r = rnd.random()
+    if a in INTD:
+        T, size, signed = INTD[a]
+        lo, hi = gen.int_range(size, signed)
+        if good:
+            if r < 0.7:
+                return {'k': 'int', 'v': rnd.choice([lo, hi, 0, 1, -1 if signed else 2, lo + 1, hi - 1,
+                                                     rnd.randint(lo, hi), rnd.randint(lo, hi)])}
+            if r < 0.85:
+                d = cint_desc(rnd, a)
+                return d
+            if r < 0.9:
+                return {'k': 'bool', 'v': rnd.choice([True, False])}
+            if r < 0.95:
+                return {'k': 'intsub', 'v': rnd.randint(lo, hi)}
+            return {'k': 'intonly', 'v': rnd.randint(lo, hi)}
+        if r < 0.5:
+            return {'k': 'int', 'v': rnd.choice([lo - 1, hi + 1, 2 ** 64, -2 ** 63 - 1, 2 ** 100,
+                                                 2 ** 63, 2 ** 32, -2 ** 31 - 1, -1, 2 ** 64 - 1])}
+        if r < 0.65:
+            return {'k': 'cint', 't': rnd.choice(['long long', 'unsigned long long']),
+                    'v': rnd.choice([lo - 1, hi + 1, -1, 2 ** 63 - 1, -2 ** 63]) % 2 ** 64}
+        return rnd.choice([{'k': 'str'}, {'k': 'none'}, {'k': 'float', 'v': (1.5).hex()},
+                           {'k': 'float', 'v': (2.0).hex()}, {'k': 'index', 'v': 5},
+                           {'k': 'cfloat', 't': 'double', 'v': (2.0).hex()},
+                           {'k': 'intonly', 'v': hi + 1}, {'k': 'bytes', 'v': b'a'.hex()},
+                           {'k': 'cptr'}, {'k': 'list', 'vals': [1]}])
+    if a == '_Bool':
+        if good:
+            return rnd.choice([{'k': 'int', 'v': 0}, {'k': 'int', 'v': 1}, {'k': 'bool', 'v': True},
+                               {'k': 'bool', 'v': False}, {'k': 'cint', 't': '_Bool', 'v': 1},
+                               {'k': 'cint', 't': 'int', 'v': rnd.choice([0, 1])},
+                               {'k': 'intonly', 'v': 1}])
+        return rnd.choice([{'k': 'int', 'v': 2}, {'k': 'int', 'v': -1}, {'k': 'str'}, {'k': 'none'},
+                           {'k': 'int', 'v': 2 ** 100}, {'k': 'float', 'v': (1.0).hex()},
+                           {'k': 'cint', 't': 'int', 'v': 2}, {'k': 'index', 'v': 1},
+                           {'k': 'cfloat', 't': 'double', 'v': (1.0).hex()}, {'k': 'int', 'v': 256}])
+    if a == 'char':
+        if good:
+            return rnd.choice([{'k': 'bytes', 'v': bytes([rnd.randrange(256)]).hex()},
+                               {'k': 'bytes', 'v': bytes([rnd.choice([0, 127, 128, 255])]).hex()},
+                               {'k': 'cint', 't': 'char', 'v': rnd.randrange(256)}])
+        return rnd.choice([{'k': 'bytes', 'v': b'ab'.hex()}, {'k': 'int', 'v': 65}, {'k': 'str'},
+                           {'k': 'bytes', 'v': ''}, {'k': 'ustr', 'v': 'a'}, {'k': 'none'},
+                           {'k': 'cint', 't': 'int', 'v': 65}, {'k': 'cint', 't': 'wchar_t', 'v': 65},
+                           {'k': 'bytearray', 'v': b'a'.hex()}, {'k': 'bool', 'v': True}])
+    if a in WCH:
+        top = WCH[a]
+        if good:
+            c = rnd.choice([0, 0x41, 0xff, 0x100, 0xd7ff, 0xe000, 0xffff, rnd.randrange(0x10000),
+                            min(top, rnd.choice([0x10000, 0x10ffff, rnd.randrange(0x10000, 0x110000)]))])
+            if r < 0.8:
+                return {'k': 'ustr', 'v': chr(c) if not 0xd800 <= c < 0xe000 else 'z'}
+            return {'k': 'cint', 't': a, 'v': c}
+        return rnd.choice([{'k': 'ustr', 'v': chr(0x10000)}, {'k': 'ustr', 'v': chr(0x10ffff)},
+                           {'k': 'ustr', 'v': '\ud800'}, {'k': 'ustr', 'v': '\udfff'},
+                           {'k': 'ustr', 'v': 'ab'}, {'k': 'ustr', 'v': ''}, {'k': 'bytes', 'v': b'a'.hex()},
+                           {'k': 'int', 'v': 65}, {'k': 'none'},
+                           {'k': 'cint', 't': rnd.choice([t for t in sorted(WCH) if t != a]), 'v': 0x42},
+                           {'k': 'cint', 't': 'char', 'v': 65}, {'k': 'cint', 't': 'int', 'v': 65},
+                           {'k': 'ustr', 'v': 'é'}])
+    if a in ('float', 'double'):
+        if good:
+            if r < 0.7:
+                return {'k': 'float', 'v': rnd.choice([0.0, 1.5, -2.25, 1e10, 0.1, -0.0, 16777217.0,
+                                                       rnd.uniform(-1e6, 1e6)]).hex()}
+            if r < 0.8:
+                return {'k': 'cfloat', 't': rnd.choice(['float', 'double']),
+                        'v': rnd.choice([1.5, -2.25, 0.1, 1e10]).hex()}
+            return rnd.choice([{'k': 'int', 'v': 3}, {'k': 'int', 'v': -2 ** 40}, {'k': 'bool', 'v': True},
+                               {'k': 'floatobj', 'v': (2.5).hex()}, {'k': 'cint', 't': 'int', 'v': 12},
+                               {'k': 'index', 'v': 7}])
+        return rnd.choice([{'k': 'str'}, {'k': 'none'}, {'k': 'int', 'v': 2 ** 2000},
+                           {'k': 'float', 'v': (3.0e38).hex()}, {'k': 'float', 'v': (1e300).hex()},
+                           {'k': 'float', 'v': 'inf'}, {'k': 'float', 'v': '-inf'},
+                           {'k': 'bytes', 'v': b'1'.hex()}, {'k': 'cptr'}, {'k': 'list', 'vals': [1]},
+                           {'k': 'cint', 't': 'char', 'v': 65}])
+    if a in PTRITEM:
+        it = PTRITEM[a]
+        n = rnd.choice([3, 3, 4, 8])
+        if it == 'double':
+            vals = [rnd.choice([1.5, -2.25, 100.0, 0.0, 7.75]) for _ in range(n)]
+        else:
+            vals = [rnd.randint(-1000, 1000) for _ in range(n)]
+        if good:
+            return rnd.choice([{'k': 'buf', 't': it, 'vals': vals}, {'k': 'buf', 't': it, 'vals': vals},
+                               {'k': 'buf', 't': it, 'vals': vals, 'as': 'ptr'},
+                               {'k': 'buf', 't': it, 'vals': vals, 'as': 'void'},
+                               {'k': 'buf', 't': it, 'vals': vals, 'as': 'frombuf'},
+                               {'k': 'list', 'vals': vals}, {'k': 'tuple', 'vals': vals}, {'k': 'null'}])
+        return rnd.choice([{'k': 'wrongptr'}, {'k': 'int', 'v': 5}, {'k': 'int', 'v': 0}, {'k': 'none'},
+                           {'k': 'str'}, {'k': 'bytes', 'v': b'abcdefgh'.hex()},
+                           {'k': 'list', 'vals': vals[:2] + ['x']},
+                           {'k': 'list', 'vals': [2 ** 70 if it != 'double' else 'y'] + vals},
+                           {'k': 'bytearray', 'v': (b'\0' * 32).hex()}, {'k': 'float', 'v': (1.0).hex()},
+                           {'k': 'buf', 't': 'unsigned ' + it if it != 'double' else 'float', 'vals': [1, 2, 3]},
+                           {'k': 'fn'}])
+    if a in ('char *', 'unsigned char *'):
+        s = bytes(rnd.randrange(1, 256) for _ in range(rnd.choice([1, 3, 8])))
+        if good:
+            return rnd.choice([{'k': 'bytes', 'v': s.hex()}, {'k': 'bytes', 'v': s.hex()},
+                               {'k': 'cbuf', 't': a[:-2], 'v': s.hex()},
+                               {'k': 'cbuf', 't': a[:-2], 'v': s.hex(), 'as': 'ptr'},
+                               {'k': 'cbuf', 't': a[:-2], 'v': s.hex(), 'as': 'void'},
+                               {'k': 'cbuf', 't': a[:-2], 'v': s.hex(), 'as': 'frombuf'},
+                               {'k': 'null'},
+                               {'k': 'hexlist', 'vals': [bytes([c]).hex() for c in s], 'list': True}
+                               if a == 'char *' else {'k': 'list', 'vals': list(s)},
+                               {'k': 'hexlist', 'vals': [bytes([c]).hex() for c in s]} if a == 'char *'
+                               else {'k': 'tuple', 'vals': list(s)}])
+        return rnd.choice([{'k': 'wrongptr'}, {'k': 'str'}, {'k': 'none'}, {'k': 'int', 'v': 0},
+                           {'k': 'list', 'vals': list(s)} if a == 'char *' else {'k': 'list', 'vals': [256, 1]},
+                           {'k': 'bytearray', 'v': s.hex()},
+                           {'k': 'cbuf', 't': 'unsigned char' if a == 'char *' else 'char', 'v': s.hex()},
+                           {'k': 'cbuf', 't': 'signed char', 'v': s.hex()}, {'k': 'ustr', 'v': 'abc'},
+                           {'k': 'list', 'vals': [-1]}])
+    if a == 'void *':
+        s = bytes(rnd.randrange(1, 256) for _ in range(4))
+        if good:
+            return rnd.choice([{'k': 'buf', 't': 'int', 'vals': [1, 2, 3]},
+                               {'k': 'buf', 't': 'int', 'vals': [1, 2, 3], 'as': 'void'},
+                               {'k': 'buf', 't': 'long', 'vals': [4, 5], 'as': 'ptr'},
+                               {'k': 'cbuf', 't': 'char', 'v': s.hex()}, {'k': 'null'},
+                               {'k': 'bytes', 'v': s.hex()}, {'k': 'structptr', 'v': [1, 2, 1.5]},
+                               {'k': 'fn'}])
+        return rnd.choice([{'k': 'int', 'v': 0}, {'k': 'int', 'v': 4096}, {'k': 'none'}, {'k': 'str'},
+                           {'k': 'list', 'vals': [1, 2]}, {'k': 'bytearray', 'v': s.hex()},
+                           {'k': 'float', 'v': (1.0).hex()}, {'k': 'cint', 't': 'long', 'v': 64},
+                           {'k': 'struct', 'v': [1, 2, 1.5]}])
+    if a == FNPTR:
+        if good:
+            return rnd.choice([{'k': 'fn'}, {'k': 'fn'}, {'k': 'fn', 'as': 'void'}, {'k': 'null'}])
+        return rnd.choice([{'k': 'fn', 'as': 'wrong'}, {'k': 'int', 'v': 0}, {'k': 'none'}, {'k': 'str'},
+                           {'k': 'buf', 't': 'int', 'vals': [1, 2, 3]}, {'k': 'bytes', 'v': b'ab'.hex()},
+                           {'k': 'list', 'vals': [1]}, {'k': 'pyfunc'}])
+    if a == 'struct pt *':
+        sv = struct_init(rnd, 'struct pt')
+        if good:
+            return rnd.choice([{'k': 'structptr', 'v': sv}, {'k': 'structptr', 'v': sv},
+                               {'k': 'structptr', 'v': sv, 'as': 'void'},
+                               {'k': 'structarr', 'v': [sv, struct_init(rnd, 'struct pt')]},
+                               {'k': 'null'}, {'k': 'structlist', 'v': sv},
+                               {'k': 'partial', 'v': [{'a': sv[0]}]},
+                               {'k': 'partial', 'v': [[sv[0]], {'b': sv[1]}]},
+                               {'k': 'partial', 'v': [{'b': sv[1]}] * 20},
+                               {'k': 'partial', 'v': [{'c': sv[2]}] * rnd.choice([32, 33, 40, 41, 70])}])
+        return rnd.choice([{'k': 'wrongptr'}, {'k': 'struct', 'v': sv}, {'k': 'none'}, {'k': 'int', 'v': 0},
+                           {'k': 'dict', 'v': sv}, {'k': 'partial', 'v': [{'zz': 1}]},
+                           {'k': 'partial', 'v': [{'a': 1}] * 50 + [{'a': 2 ** 40}]},
+                           {'k': 'sval', 't': 'struct pd', 'v': struct_init(rnd, 'struct pd'), 'as': 'ptr'},
+                           {'k': 'str'}, {'k': 'bytes', 'v': (b'\1' * 16).hex()}])
+    if a in STRUCTS:
+        v = struct_init(rnd, a)
+        if good:
+            if r < 0.04 and NFIELDS[a] > 1 and a != 'struct pb':
+                return {'k': 'rawlist', 'v': v[:1]}       # partial initializer
+            if a == 'struct pt':
+                return rnd.choice([{'k': 'struct', 'v': v}, {'k': 'struct', 'v': v}, {'k': 'dict', 'v': v},
+                                   {'k': 'rawlist', 'v': v}])
+            if a == 'struct pb':
+                return {'k': 'sval', 't': a, 'v': v}
+            return rnd.choice([{'k': 'sval', 't': a, 'v': v}, {'k': 'sval', 't': a, 'v': v},
+                               {'k': 'rawlist', 'v': v}])
+        other = rnd.choice([s for s in STRUCTS if s != a])
+        return rnd.choice([{'k': 'int', 'v': 1}, {'k': 'none'}, {'k': 'str'},
+                           {'k': 'sval', 't': other, 'v': struct_init(rnd, other)},
+                           {'k': 'sval', 't': a, 'v': v, 'as': 'ptr'}, {'k': 'rawlist', 'v': v + [1, 2, 3]},
+                           {'k': 'rawlist', 'v': ['x']}, {'k': 'partial', 'v': {'nofield': 1}},
+                           {'k': 'bytes', 'v': (b'\0' * 16).hex()}])
+    raise ValueError(a)
+
+
+def arr_lengths(size):
+    return [0, 1, 2, 3, 5, 512 // size - 1, 512 // size, 512 // size + 1, 576 // size,
+            640 // size, 640 // size + 1, 1024 // size, 5000 // size]
+
+
+def arr_items(rnd, tag, n):
+    if tag in ('int', 'long'):
+        return [rnd.randint(-10 ** 6, 10 ** 6) for _ in range(n)]
+    if tag == 'short':
+        return [rnd.randint(-30000, 30000) for _ in range(n)]
+    if tag == 'double':
+        return [rnd.choice([1.5, -2.25, 100.0, 0.0, 7.75, 3.0]) for _ in range(n)]
+    if tag in ('char', 'uchar'):
+        return [rnd.randrange(256) for _ in range(n)]
+    if tag == 'pt':
+        out = []
+        for _ in range(n):
+            sv = struct_init(rnd, 'struct pt')
+            out.append(rnd.choice([sv, sv, sv[:1], sv[:2], {'b': sv[1]}, {'c': sv[2], 'a': sv[0]}, {}]))
+        return out
+    if tag == 'pb':
+        out = []
+        for _ in range(n):
+            sv = struct_init(rnd, 'struct pb')
+            out.append(rnd.choice([sv, sv, {'s': sv[1]}, sv[:1]]))
+        return out
+    raise ValueError(tag)
+
+
+def gen_arr_arg(rnd, tag, n):
+    """(descriptor of the array argument, number of items the callee may walk)"""
+    vals = arr_items(rnd, tag, n)
+    r = rnd.random()
+    if tag in ('char', 'uchar') and r < 0.25:
+        return {'k': 'bytes', 'v': bytes(vals).hex()}, n
+    if r < 0.45:
+        return {'k': 'arrlist', 'tag': tag, 'vals': vals}, n
+    if r < 0.6:
+        return {'k': 'arrlist', 'tag': tag, 'vals': vals, 'tuple': True}, n
+    if r < 0.85:
+        return {'k': 'arrbuf', 'tag': tag, 'vals': vals,
+                'as': rnd.choice(['arr', 'arr', 'ptr', 'void'])}, n
+    if r < 0.9:
+        return {'k': 'null'}, 0
+    # a hostile item somewhere in the list: refused after the temporary was obtained
+    bad = list(vals)
+    bad.insert(rnd.randrange(n + 1),
+               rnd.choice(['x', 2 ** 70 if tag not in ('double', 'pt', 'pb') else 'y',
+                           None if tag != 'pt' else {'nofield': 3}]))
+    return {'k': 'arrlist', 'tag': tag, 'vals': bad, 'hostile': True}, n
+
+
+VAR_KINDS = [('i', 'int'), ('i', 'short'), ('i', 'signed char'), ('i', 'unsigned char'),
+             ('i', 'unsigned short'), ('i', 'char'), ('i', '_Bool'), ('i', 'int8_t'), ('i', 'wchar_t'),
+             ('u', 'unsigned int'), ('u', 'char32_t'), ('i', 'char16_t'),
+             ('l', 'long'), ('l', 'long long'), ('l', 'unsigned long'), ('l', 'ssize_t'),
+             ('l', 'unsigned long long'), ('d', 'double'), ('d', 'double'),
+             ('p', 'arr'), ('p', 'ptr'), ('p', 'null'), ('s', 'arr'), ('s', 'ptr'), ('t', 'struct')]
+
+
+def gen_var_arg(rnd):
+    f, t = rnd.choice(VAR_KINDS)
+    if f in 'iul':
+        if t == '_Bool':
+            v = rnd.choice([0, 1])
+        elif t == 'char':
+            v = rnd.randrange(0, 128)
+        elif t in ('wchar_t', 'char32_t'):
+            v = rnd.choice([0x41, 0x10ffff, 0xffff, rnd.randrange(0x110000)])
+        elif t == 'char16_t':
+            v = rnd.choice([0x41, 0xffff, 0xd800, rnd.randrange(0x10000)])
+        else:
+            T, size, signed = INTD[t]
+            lo, hi = gen.int_range(size, signed)
+            v = rnd.choice([lo, hi, 0, -1 if signed else 1, rnd.randint(lo, hi)])
+        return {'k': 'vc', 'f': f, 't': t, 'v': v}
+    if f == 'd':
+        return {'k': 'vc', 'f': f, 't': t, 'v': rnd.choice([1.5, -2.25, 0.0, 1e6, 0.1, 12345.75]).hex()}
+    if f == 'p':
+        return {'k': 'vc', 'f': f, 't': t, 'v': [rnd.randint(-10 ** 6, 10 ** 6), rnd.randint(0, 9)]}
+    if f == 's':
+        return {'k': 'vc', 'f': f, 't': t, 'v': bytes(rnd.randrange(1, 256) for _ in range(3)).hex()}
+    return {'k': 'vc', 'f': f, 't': t, 'v': struct_init(rnd, 'struct pt')}
+
+
+HOSTILE_VAR = [{'k': 'int', 'v': 3}, {'k': 'none'}, {'k': 'float', 'v': (1.5).hex()},
+               {'k': 'bytes', 'v': b'ab'.hex()}, {'k': 'str'}, {'k': 'list', 'vals': [1]},
+               {'k': 'bool', 'v': True}]
+
+
+def gen_tuple(rng, f):
+    e = rng.choice([0, 1, 2, 34, 255, rng.randrange(1, 4000)])
+    if f.get('variadic') == 'sum':
+        n = rng.choice([0, 1, 2, 5, 9])
+        va = [{'k': 'vc', 'f': 'l', 't': rng.choice(['long long', 'long', 'ssize_t', 'unsigned long long']),
+               'v': rng.choice([rng.randint(-2 ** 40, 2 ** 40), 2 ** 63 - 1, -2 ** 63, -1])} for _ in range(n)]
+        for d in va:
+            if d['t'].startswith('unsigned'):
+                d['v'] %= 2 ** 64
+        mode = 'var'
+        if n and rng.random() < 0.15:
+            va[rng.randrange(n)] = rng.choice(HOSTILE_VAR)
+            mode = 'var-hostile'
+        return {'a': [{'k': 'int', 'v': n}] + va, 'e': e, 'm': mode}
+    if f.get('variadic') == 'mix':
+        n = rng.choice([0, 1, 2, 3, 5, 8, 12])
+        va = []
+        while len(va) < n:
+            d = gen_var_arg(rng)
+            shape = ['char *'] + [{'d': 'double', 't': 'struct pt'}.get(x['f'], 'long') for x in va + [d]]
+            if not platform_libffi_bug(shape):
+                va.append(d)
+        fmt = ''.join(d['f'] for d in va)
+        mode = 'var'
+        if n and rng.random() < 0.15:
+            va[rng.randrange(n)] = rng.choice(HOSTILE_VAR)
+            mode = 'var-hostile'
+        return {'a': [{'k': 'bytes', 'v': fmt.encode().hex()}] + va, 'e': e, 'm': mode}
+    if f.get('arr'):
+        tag = f['arr']
+        if tag == '2':
+            n1 = rng.choice(arr_lengths(4))
+            n2 = rng.choice(arr_lengths(8))
+            d1, w1 = gen_arr_arg(rng, 'int', n1)
+            d2, w2 = gen_arr_arg(rng, 'long', n2)
+            return {'a': [d1, {'k': 'int', 'v': w1}, d2, {'k': 'int', 'v': w2}], 'e': e, 'm': 'arr'}
+        n = rng.choice(arr_lengths(ARR[tag][1]))
+        d, w = gen_arr_arg(rng, tag, n)
+        if w and rng.random() < 0.15:
+            w = rng.randrange(w)          # callee walks a prefix only
+        return {'a': [d, {'k': 'int', 'v': w}], 'e': e, 'm': 'arr'}
+    r = rng.random()
+    args = f['args']
+    if r < 0.6 or not args:
+        descs = [gen_arg(rng, a, True) for a in args]
+        mode = 'valid'
+    elif r < 0.85:
+        descs = [gen_arg(rng, a, True) for a in args]
+        k = rng.randrange(len(args))
+        descs[k] = gen_arg(rng, args[k], False)
+        mode = 'one-hostile'
+    else:
+        descs = [gen_arg(rng, a, rng.random() < 0.6) for a in args]
+        mode = 'mix'
+    r = rng.random()
+    if r < 0.04 and args:
+        mode = 'count-missing'
+    elif r < 0.08:
+        mode = 'count-extra'
+    elif r < 0.10:
+        mode = 'keyword'
+    return {'a': descs, 'e': e, 'm': mode}
 
 
 def generate(ctx):
     rng = ctx.rng('gen')
     nmod = ctx.scale(3, 120)
-    nfun = 40
-    ntup = ctx.scale(40, 60)
+    nfun = 32
+    ntup = ctx.scale(24, 40)
     d = os.path.join(ctx.tmp, 'mods')
     specs, cases = [], []
     for m in range(nmod):
@@ -218,15 +671,14 @@ def generate(ctx):
         specs.append(spec)
         tuples = {}
         for f in funcs:
-            tl = []
-            for _ in range(ntup):
-                if f.get('variadic'):
-                    n = rng.choice([0, 1, 2, 5])
-                    tl.append([{'k': 'int', 'v': n}] +
-                              [{'k': 'castll', 'v': rng.randint(-2 ** 40, 2 ** 40)} for _ in range(n)])
-                else:
-                    tl.append([gen_arg(rng, a) for a in f['args']])
-            tuples[f['name']] = tl
+            k = ntup
+            if f.get('variadic'):
+                k = ntup + 10
+            elif f.get('arr'):
+                k = max(8, ntup // 2)
+            elif not f['args']:
+                k = 4
+            tuples[f['name']] = [gen_tuple(rng, f) for _ in range(k)]
         cases.append({'mod': name, 'seed': seed, 'nfun': nfun, 'tuples': tuples})
     res = modbuild.build_modules(ctx, specs)
     for c in cases:
@@ -244,40 +696,155 @@ def child_setup(setup, wd):
     return {'dir': setup['dir'], 'wd': wd}
 
 
-def make_arg(ffi, d, keep):
+class _IntSub(int):
+    pass
+
+
+class _Index(object):
+    def __init__(self, v):
+        self.v = v
+
+    def __index__(self):
+        return self.v
+
+
+class _IntOnly(object):
+    def __init__(self, v):
+        self.v = v
+
+    def __int__(self):
+        return self.v
+
+
+class _FloatObj(object):
+    def __init__(self, v):
+        self.v = v
+
+    def __float__(self):
+        return self.v
+
+
+def _pyfunc(x):
+    return x
+
+
+def _hexfloat(s):
+    return float(s) if s in ('inf', '-inf', 'nan') else float.fromhex(s)
+
+
+def _pb_init(v):
+    if isinstance(v, list) and v and isinstance(v[0], str):
+        return [bytes.fromhex(v[0])] + v[1:]
+    if isinstance(v, list):
+        return v
+    return v
+
+
+def _arr_init(tag, vals):
+    if tag == 'char':
+        return [bytes([c]) if isinstance(c, int) and 0 <= c < 256 else c for c in vals]
+    if tag == 'pb':
+        return [_pb_init(v) for v in vals]
+    return list(vals)
+
+
+def _shape(ffi, base, how, keep):
+    """pass the array cdata 'base' as itself / a pointer / a void pointer"""
+    keep.append(('buf', base))
+    if how == 'ptr':
+        return base + 0
+    if how == 'void':
+        return ffi.cast('void *', base)
+    return base
+
+
+def make_arg(ffi, d, keep, env):
     k = d['k']
     if k == 'int':
         return d['v']
     if k == 'float':
-        return float.fromhex(d['v'])
+        return _hexfloat(d['v'])
     if k == 'bool':
         return d['v']
     if k == 'str':
         return 'a string'
+    if k == 'ustr':
+        return d['v']
     if k == 'none':
         return None
     if k == 'bytes':
         return bytes.fromhex(d['v'])
+    if k == 'bytearray':
+        return bytearray(bytes.fromhex(d['v']))
     if k == 'null':
         return ffi.NULL
     if k == 'list':
         return list(d['vals'])
+    if k == 'tuple':
+        return tuple(d['vals'])
+    if k == 'hexlist':
+        v = [bytes.fromhex(x) for x in d['vals']]
+        return v if d.get('list') else tuple(v)
+    if k == 'castll':
+        return ffi.cast('long long', d['v'])
+    if k == 'intsub':
+        return _IntSub(d['v'])
+    if k == 'index':
+        return _Index(d['v'])
+    if k == 'intonly':
+        return _IntOnly(d['v'])
+    if k == 'floatobj':
+        return _FloatObj(_hexfloat(d['v']))
+    if k == 'pyfunc':
+        return _pyfunc
+    if k == 'cint':
+        return ffi.cast(d['t'], d['v'])
+    if k == 'cfloat':
+        return ffi.cast(d['t'], _hexfloat(d['v']))
+    if k == 'cptr':
+        p = ffi.new('int[2]')
+        keep.append(('wrong', p))
+        return p
     if k == 'wrongptr':
         p = ffi.new('short[4]')
         keep.append(('wrong', p))
         return p
+    if k == 'fn':
+        how = d.get('as')
+        if how == 'wrong':
+            return ffi.cast('long(*)(long)', env['fnaddr'])
+        if how == 'void':
+            return ffi.cast('void *', env['fnaddr'])
+        return ffi.cast('int(*)(int)', env['fnaddr'])
     if k == 'buf':
-        p = ffi.new(d['t'] + '[]', d['vals'])
-        keep.append(('buf', p))
-        return p
+        how = d.get('as')
+        if how == 'frombuf':
+            ba = bytearray(bytes(ffi.buffer(ffi.new(d['t'] + '[]', d['vals']))))
+            p = ffi.from_buffer(d['t'] + '[]', ba)
+            keep.append(('buf', p))
+            return p
+        return _shape(ffi, ffi.new(d['t'] + '[]', d['vals']), how, keep)
     if k == 'cbuf':
-        p = ffi.new('char[]', bytes.fromhex(d['v']))
-        keep.append(('buf', p))
-        return p
+        how = d.get('as')
+        t = d.get('t', 'char')
+        raw = bytes.fromhex(d['v'])
+        if how == 'frombuf':
+            p = ffi.from_buffer(t + '[]', bytearray(raw + b'\0'))
+            keep.append(('buf', p))
+            return p
+        p = ffi.new(t + '[]', len(raw) + 1)
+        ffi.buffer(p)[0:len(raw)] = raw
+        return _shape(ffi, p, how, keep)
     if k in ('structptr', 'struct'):
         p = ffi.new('struct pt *', d['v'])
         keep.append(('buf', p))
-        return p if k == 'structptr' else p[0]
+        if k == 'struct':
+            return p[0]
+        return ffi.cast('void *', p) if d.get('as') == 'void' else p
+    if k == 'structarr':
+        p = ffi.new('struct pt[]', d['v'])
+        keep.append(('buf', p))
+        return p
     if k == 'structlist':
         return list(d['v'])
     if k in ('partial', 'rawlist'):
@@ -285,15 +852,48 @@ def make_arg(ffi, d, keep):
     if k == 'sval':
         v = d['v']
         if d['t'] == 'struct pb':
-            v = [bytes.fromhex(v[0]), v[1]]
+            v = _pb_init(v)
         p = ffi.new(d['t'] + ' *', v)
         keep.append(('buf', p))
-        return p[0]
+        return p if d.get('as') == 'ptr' else p[0]
     if k == 'dict':
         return {'a': d['v'][0], 'b': d['v'][1], 'c': d['v'][2]}
-    if k == 'castll':
-        return ffi.cast('long long', d['v'])
+    if k == 'arrlist':
+        v = _arr_init(d['tag'], d['vals'])
+        return tuple(v) if d.get('tuple') else v
+    if k == 'arrbuf':
+        T = ARR[d['tag']][0]
+        return _shape(ffi, ffi.new(T + '[]', _arr_init(d['tag'], d['vals'])), d.get('as'), keep)
+    if k == 'vc':
+        f, t, v = d['f'], d['t'], d['v']
+        if f in 'iul':
+            return ffi.cast(t, v)
+        if f == 'd':
+            return ffi.cast(t, _hexfloat(v))
+        if f == 'p':
+            if t == 'null':
+                return ffi.cast('int *', 0)
+            return _shape(ffi, ffi.new('int[]', v), 'ptr' if t == 'ptr' else None, keep)
+        if f == 's':
+            return _shape(ffi, ffi.new('char[]', bytes.fromhex(v)), 'ptr' if t == 'ptr' else None, keep)
+        p = ffi.new('struct pt *', v)
+        keep.append(('buf', p))
+        return p[0]
     raise ValueError(k)
+
+
+def unpack(ffi, v):
+    """field-wise Python value of a cdata (struct / array / primitive)"""
+    if isinstance(v, float):
+        return ('f', struct.pack('<d', v).hex())
+    if not isinstance(v, ffi.CData):
+        return v
+    t = ffi.typeof(v)
+    if t.kind == 'struct':
+        return [(name, unpack(ffi, getattr(v, name))) for name, fld in t.fields]
+    if t.kind == 'array':
+        return [unpack(ffi, v[i]) for i in range(len(v))]
+    return repr(v)
 
 
 def norm_ret(ffi, r, keep):
@@ -308,25 +908,171 @@ def norm_ret(ffi, r, keep):
                     return ('ptr-to-arg-buffer', i)
             return ('ptr', 'NULL' if a == 0 else 'other')
         if t.kind == 'struct':
-            return ('struct', bytes(ffi.buffer(ffi.addressof(r))).hex())
+            return ('struct', repr(unpack(ffi, r)))
         return ('cdata', repr(r))
     return (type(r).__name__, r)
 
 
-def one_call(ffi, fn, descs):
+def one_call(ffi, fn, tup, env):
     keep = []
     try:
-        args = [make_arg(ffi, d, keep) for d in descs]
+        args = [make_arg(ffi, d, keep, env) for d in tup['a']]
     except Exception as e:
         return ('harness', type(e).__name__ + str(e))
-    ffi.errno = 12345
+    kw = {}
+    m = tup['m']
+    if m == 'count-missing':
+        args = args[:-1]
+    elif m == 'count-extra':
+        args = args + [0]
+    elif m == 'keyword':
+        kw = {'x0': 1}
+    ffi.errno = tup['e']
     try:
-        r = fn(*args)
+        r = fn(*args, **kw)
         out = ('ok', norm_ret(ffi, r, keep), ffi.errno)
     except Exception as e:
-        out = ('exc', type(e).__name__)
+        out = ('exc', type(e).__name__, ffi.errno)
     bufs = tuple(bytes(ffi.buffer(p)).hex() for kind, p in keep)
     return out + (bufs,)
+
+
+# ---------------------------------------------------------------------------
+# reference models of the C bodies whose four paths share cdata_call's code
+
+def model_var(f, tup):
+    """(return value, errno, {index in keep: expected int at [0]}) of vsum / vmix for an
+    all-cdata tuple; None if the tuple is not a plain valid one."""
+    if tup['m'] != 'var':
+        return None
+    descs = tup['a']
+    if f['variadic'] == 'sum':
+        s = 0
+        for d in descs[1:]:
+            s = (s * 3 + d['v']) & M64
+        return s64(s), (s & 0x7fff) + 1, {}
+    s = 5
+    nkeep = 0
+    expect = {}
+    for d in descs[1:]:
+        fch, t, v = d['f'], d['t'], d['v']
+        if fch == 'i':
+            if t in INTD:
+                size, signed = INTD[t][1], INTD[t][2]
+                lo, hi = gen.int_range(size, signed)
+                assert lo <= v <= hi
+            x = v
+            if t in ('wchar_t',):
+                x = v        # 32-bit, <= 0x10ffff: same as int
+            s = (s * 3 + x) & M64
+        elif fch == 'u':
+            s = (s * 3 + v) & M64
+        elif fch == 'l':
+            s = (s * 3 + v) & M64
+        elif fch == 'd':
+            s = (s * 3 + int(_hexfloat(v) * 4.0)) & M64
+        elif fch == 'p':
+            if t == 'null':
+                s = (s * 3 + 1) & M64
+            else:
+                s = (s * 3 + v[0]) & M64
+                expect[nkeep] = v[0] + 1
+                nkeep += 1
+        elif fch == 's':
+            s = (s * 3 + bytes.fromhex(v)[0]) & M64
+            nkeep += 1
+        elif fch == 't':
+            s = (s * 3 + v[0] + v[1] + int(v[2])) & M64
+            nkeep += 1
+    return s64(s), (s & 0x7fff) + 1, expect
+
+
+def _item_value(tag, it):
+    """value the arr_<tag> walker adds for one (possibly partial) initializer"""
+    if tag in ('int', 'long', 'short', 'uchar'):
+        return it
+    if tag == 'char':
+        return it - 256 if it >= 128 else it          # plain char is signed on this platform
+    if tag == 'double':
+        return int(it * 4.0)
+    if tag == 'pt':
+        a = b = 0
+        c = 0.0
+        if isinstance(it, dict):
+            a, b, c = it.get('a', 0), it.get('b', 0), it.get('c', 0.0)
+        else:
+            vals = list(it) + [0, 0, 0.0][len(it):]
+            a, b, c = vals
+        return a + 5 * b + int(c * 4.0)
+    if tag == 'pb':
+        c = b'\0\0\0'
+        sh = 0
+        if isinstance(it, dict):
+            sh = it.get('s', 0)
+        else:
+            c = bytes.fromhex(it[0])
+            if len(it) > 1:
+                sh = it[1]
+        cs = [x - 256 if x >= 128 else x for x in c]
+        return cs[0] + 2 * cs[1] + 3 * cs[2] + 4 * sh
+    raise ValueError(tag)
+
+
+def model_arr(f, tup):
+    """expected return value and errno of an array walker for a valid tuple"""
+    descs = tup['a']
+    s = 11 + (tup['e'] & 0xff)
+    pairs = [(f['arr'], descs[0], descs[1])] if f['arr'] != '2' else \
+        [('int', descs[0], descs[1]), ('long', descs[2], descs[3])]
+    for tag, d, nd in pairs:
+        if d.get('hostile'):
+            return None
+        n = nd['v']
+        if d['k'] == 'null':
+            continue
+        if d['k'] == 'bytes':
+            vals = list(bytes.fromhex(d['v']))
+        else:
+            vals = d['vals']
+        for it in vals[:n]:
+            s = (s * 131 + _item_value(tag, it)) & M64
+    return s64(s), (s & 0x7fff) + 1
+
+
+def partial_struct_arg(f, tup):
+    """a by-value struct parameter receives an initializer list that names fewer
+    fields than the struct has"""
+    if f.get('variadic') or f.get('arr'):
+        return False
+    for a, d in zip(f['args'], tup['a']):
+        if a in STRUCTS and d['k'] == 'rawlist' and isinstance(d['v'], list) and len(d['v']) < NFIELDS[a]:
+            return True
+    return False
+
+
+def arg_stats(rep, f, tup):
+    rep.stat('mode_' + tup['m'])
+    for d in tup['a']:
+        k = d['k']
+        if d.get('as'):
+            k += '-as-' + d['as']
+        rep.stat('arg_' + k)
+        if k == 'vc':
+            rep.stat('variadic_cdata_' + d['f'] + '_' + d['t'].replace(' ', '_'))
+        if d['k'] in ('arrlist', 'list', 'tuple', 'partial', 'hexlist') and \
+                isinstance(d.get('vals', d.get('v')), list):
+            n = len(d.get('vals', d.get('v')))
+            if d['k'] == 'arrlist':
+                size = n * ARR[d['tag']][1]
+            elif d['k'] == 'partial':
+                size = n * 16
+            else:
+                size = None
+            if size is not None:
+                rep.stat('temp_array_le512' if size <= 512 else
+                         ('temp_array_513_640' if size <= 640 else 'temp_array_gt640'))
+                if d.get('hostile'):
+                    rep.stat('temp_array_hostile_item')
 
 
 def child_case(st, case):
@@ -347,18 +1093,35 @@ def child_case(st, case):
     om = importlib.import_module(oname)
     offi = om.ffi
     olib = offi.dlopen(mod.__file__)
+    env = {'fnaddr': int(ffi.cast('uintptr_t', ffi.addressof(lib, 'cbfn')))}
     for f in funcs:
         name = f['name']
+        if not case['tuples'].get(name):
+            continue
         paths = [('api', ffi, getattr(lib, name)), ('libffi', ffi, ffi.addressof(lib, name)),
                  ('inline-abi', affi, getattr(alib, name)), ('outofline-abi', offi, getattr(olib, name))]
         sig = c_decl(f)
-        for descs in case['tuples'][name]:
-            outs = [(pn, one_call(pf, fn, descs)) for pn, pf, fn in paths]
-            rep.case((sig, repr(descs)), nontrivial=len(descs) > 0,
-                     sample={'signature': sig, 'args': repr(descs)[:200], 'api_outcome': repr(outs[0][1])[:120]})
+        rep.stat('functions')
+        rep.stat('functions_nargs_%s' % ('0' if not f['args'] else '1' if len(f['args']) == 1 else
+                                         '2-6' if len(f['args']) <= 6 else 'gt6'))
+        rep.stat('ret_' + ('struct' if f['ret'] in STRUCTS else 'pointer' if f['ret'].endswith('*')
+                           else 'wchar' if f['ret'] in WCH else 'scalar'))
+        for tup in case['tuples'][name]:
+            if isinstance(tup, list):          # replay files of the previous format
+                tup = {'a': tup, 'e': 12345, 'm': 'mix'}
+            outs = [(pn, one_call(pf, fn, tup, env)) for pn, pf, fn in paths]
+            rep.case((sig, repr(tup)), nontrivial=len(tup['a']) > 0,
+                     sample={'signature': sig, 'args': repr(tup)[:200], 'api_outcome': repr(outs[0][1])[:120]})
             rep.stat('calls', 4)
+            arg_stats(rep, f, tup)
             ref = outs[0][1]
             rep.stat('outcome_' + ref[0])
+            partial = partial_struct_arg(f, tup)
+            if partial:
+                rep.stat('partial_struct_by_value_initializer')
+            if ref[0] == 'harness':
+                rep.bad('harness', 'argument construction failed for %s %r: %r' % (sig, tup, ref), [name, tup])
+                continue
             for pn, o in outs[1:]:
                 if o != ref:
                     what = 'outcome'
@@ -368,9 +1131,42 @@ def child_case(st, case):
                     elif o[0] != ref[0]:
                         what = 'accept-vs-raise'
                     else:
-                        what = 'exception-class' if o[1] != ref[1] else 'buffers-after-exception'
-                    rep.bad('%s:api-vs-%s' % (what, pn), '%s with %r: api -> %r, %s -> %r' %
-                            (sig, descs, ref, pn, o), [name, descs])
+                        what = 'exception-class' if o[1] != ref[1] else (
+                            'errno-after-exception' if o[2] != ref[2] else 'buffers-after-exception')
+                    mech = '%s:api-vs-%s' % (what, pn)
+                    if partial:
+                        # one classifier key for the whole class: the unnamed fields of the
+                        # by-value struct are not zeroed on any path (convert_struct_from_object
+                        # writes the named fields only into an uninitialised local / exchange buffer)
+                        mech = 'partial-struct-arg:indeterminate-fields'
+                    rep.bad(mech, '%s with %r: api -> %r, %s -> %r' %
+                            (sig, tup, ref, pn, o), [name, tup])
+            # reference model (variadic and array walkers)
+            exp = None
+            if f.get('variadic'):
+                exp = model_var(f, tup)
+                kind = 'variadic'
+            elif f.get('arr'):
+                exp = model_arr(f, tup)
+                kind = 'array-walker'
+            if exp is not None:
+                rep.stat('model_checked_' + kind)
+                if ref[0] != 'ok':
+                    rep.bad('%s-vs-model:raised' % kind, '%s with %r: api -> %r, C semantics -> %r' %
+                            (sig, tup, ref, exp), [name, tup])
+                elif ref[1] != ('int', exp[0]):
+                    rep.bad('%s-vs-model:return-value' % kind, '%s with %r: api -> %r, C semantics -> %r' %
+                            (sig, tup, ref, exp), [name, tup])
+                elif ref[2] != exp[1]:
+                    rep.bad('%s-vs-model:errno' % kind, '%s with %r: api -> %r, C semantics -> %r' %
+                            (sig, tup, ref, exp), [name, tup])
+                elif len(exp) > 2:
+                    for i, want in exp[2].items():
+                        got = struct.unpack('<i', bytes.fromhex(ref[3][i])[:4])[0]
+                        if got != want:
+                            rep.bad('%s-vs-model:buffers' % kind,
+                                    '%s with %r: api -> %r, C semantics -> buffer %d starts with %d' %
+                                    (sig, tup, ref, i, want), [name, tup])
     return rep.result()
 
 
